@@ -34,7 +34,7 @@ ASSUMPTIONS = ["a kill loses exactly what Python has not yet passed to write(2);
 
 def budget(tier):
     if tier == "thorough":
-        return {"runs": 120000, "run_timeout": 120, "max_wall": 1500}
+        return {"runs": 60000, "run_timeout": 120, "max_wall": 1500}
     return {"runs": 8000, "run_timeout": 60, "max_wall": 200}
 
 
@@ -115,6 +115,7 @@ def gen_config(H: Chooser, tier):
     cfg["batches"] = batches
     # re-presentation of an already evaluated individual (it is registered again by the tracker)
     cfg["represent"] = H.draw(4) == 3
+    cfg["other_problem"] = H.draw(4) == 3
     return cfg
 
 
@@ -280,6 +281,13 @@ class World:
                 tracker = SingleObjectiveProgressTracker(problem, SequentialEvaluator(), recorders=recorders)
             self.start_time = tracker.start_time
             inds = [Individual(i, rep) for i in range(len(hist))]
+            if cfg.get("other_problem"):
+                # F12: some individuals were evaluated before under ANOTHER problem, which is still alive
+                other = SingleObjectiveProblem(lambda p: -777.0 - p.pid, minimize=False) if not cfg["multi"] else \
+                    MultiObjectiveProblem([False] * cfg["k"], lambda p: [-777.0 - p.pid - j for j in range(cfg["k"])])
+                self.problems.append(other)
+                for ind in inds[::2]:
+                    ind.set_fitness(other, other.evaluate(ind.get_phenotype()))
             for bi, batch in enumerate(cfg["batches"]):
                 group = [inds[i] for i in batch]
                 if cfg["represent"] and bi % 3 == 2:
